@@ -6,22 +6,27 @@ outputs of the agent's numpy Generator (random(), choice()/integers()) are recor
 `agent.random_generator` and handed to the Coq model as inputs; after every call the implementation's values
 (exact rationals of its floats) are compared inside Coq with the model's exact rational values.
 Direct oracle: the property statement on the implementation's observations with Python Fractions (no model).
+Round 4 (generator sweep): gen_case_x / gen_case_long - argument representations, scales, reassigned public attributes,
+assigned estimates / counts, env.step / env.reset / several sessions, long histories; see design.d/C19.md.
 """
 from __future__ import annotations
 
 import json
 import math
+import re
 from collections import Counter
 from fractions import Fraction
 
 from common import clist, cnat
 
 IMPORTS = "From Coq Require Import List ZArith QArith Uint63.\nFrom BlackIt Require Import Model.Bandit."
-CASE_T = "nat * Q * Q * Q * list op"
+CASE_T = "nat * Q * Q * Q * list xop"
 EXN = {"ValueError": "ValueError", "ZeroDivisionError": "ZeroDivisionError", "IndexError": "IndexError"}
 REL = Fraction(1, 10**12)
-ABS = Fraction(1, 10**15)
+ABS = Fraction(1, 10**15)          # correspondence (Model/Bandit.v `close`)
+ABS_ORACLE = Fraction(1, 10**320)  # direct oracle: a few units of the subnormal grid only (round 4: tiny scales are generated)
 FULL_EVERY = 8
+SPECIAL_SEEDS = [0, 0, 1, 2**32 - 1, 2**32, 2**63 - 1, 2**64 + 5]
 
 
 # ------------------------------------------------------------------------------------------ implementation driver
@@ -75,73 +80,201 @@ def _first_int(v):
         return None
 
 
-def run_impl(case):
-    """Run the call sequence of `case` on fresh real objects; one observation per op."""
+def _rep(x, tag):
+    """The value x (a Python number of the case) in the representation `tag` the caller hands it over in."""
+    import numpy as np
+
+    if x is None or tag in (None, "py"):
+        return x
+    if tag == "np.float64":
+        return np.float64(x)
+    if tag == "np.float32":
+        y = np.float32(x)
+        return y if float(y) == x else x          # only values a float32 holds exactly (the generator rounds them)
+    if tag == "int":
+        return int(x) if float(x).is_integer() and abs(x) < 2**53 and not (x == 0 and math.copysign(1, x) < 0) else x
+    if tag == "np.int64":
+        return np.int64(x) if float(x).is_integer() and abs(x) < 2**62 and not (x == 0 and math.copysign(1, x) < 0) else x
+    raise AssertionError(tag)
+
+
+def _py(x):
+    """numpy scalars of an observation as the Python number of the same value (type names are recorded apart)."""
+    import numpy as np
+
+    if isinstance(x, (np.floating, np.bool_)):
+        return float(x)
+    if isinstance(x, np.integer):
+        return int(x)
+    if isinstance(x, np.ndarray) and x.shape == ():
+        return _py(x[()])
+    return x
+
+
+def _snap(lst):
+    return [_py(x) for x in lst]
+
+
+def _nb_queue():
+    """A queue whose get() never blocks: a step() that reads more than the scheduler wrote raises queue.Empty."""
+    from queue import Queue
+
+    class NBQueue(Queue):
+        def get(self, block=True, timeout=None):  # noqa: ARG002, FBT002
+            return super().get(block=False)
+
+    return NBQueue()
+
+
+def _drain(q):
+    out = []
+    while q.qsize():
+        out.append(_py(q.get_nowait()))
+    return out
+
+
+def run_impl(case, proxied=True, ctor_seed=None):
+    """Run the call sequence of `case` on fresh real objects; one observation per op.
+
+    proxied=False: nothing is placed around the agent's generator (no scripted draws possible): the run the
+    determinism clause compares with.  ctor_seed: another constructor seed (for cases that reseed at once).
+    """
+    import numpy as np
     from black_it.schedulers.rl.agents.epsilon_greedy import MABEpsilonGreedy
     from black_it.schedulers.rl.envs.mab import MABCalibrationEnv
 
     n = case["n"]
-    agent = MABEpsilonGreedy(n, case["alpha"], case["eps"], case["init"], random_state=case["seed"])
+    rep = case.get("rep") or {}
+    seed = case["seed"] if ctor_seed is None else ctor_seed
+    agent = MABEpsilonGreedy(_rep(n, rep.get("n")), _rep(case["alpha"], rep.get("alpha")), _rep(case["eps"], rep.get("eps")),
+                             _rep(case["init"], rep.get("init")), random_state=seed)
     env = MABCalibrationEnv(max(n, 1))
-    proxy = GenProxy(agent.random_generator)
-    agent._BaseSeedable__random_generator = proxy  # noqa: SLF001  (the attribute behind the read-only property)
-    proxied = agent.random_generator is proxy
+    env._in_queue = _nb_queue()  # noqa: SLF001  (what the scheduler writes to; never blocks here)
+    proxy = None
+
+    def install_proxy():
+        nonlocal proxy
+        proxy = GenProxy(agent.random_generator)
+        agent._BaseSeedable__random_generator = proxy  # noqa: SLF001  (the attribute behind the read-only property)
+        return agent.random_generator is proxy
+
+    ok_proxy = install_proxy() if proxied else True
     obs = []
     last_act, last_rew = 0, 0.0
-    first = {"Q": list(agent.Q), "C": list(agent.actions_count), "ref": env._curr_best_loss, "proxied": proxied}  # noqa: SLF001
+    first = {"Q": _snap(agent.Q), "C": _snap(agent.actions_count), "ref": env._curr_best_loss, "proxied": ok_proxy}  # noqa: SLF001
     for op in case["ops"]:
         k = op["k"]
         o = {"exc": None}
         try:
             if k == "policy":
-                proxy.calls = []
-                proxy.script_u = op.get("u")
-                proxy.script_alt = op.get("alt")
-                o["Qat"] = list(agent.Q)
+                if proxy is not None:
+                    proxy.calls = []
+                    proxy.script_u = op.get("u")
+                    proxy.script_alt = op.get("alt")
+                o["Qat"] = _snap(agent.Q)
                 try:
                     act = agent.policy(0)
                 finally:
-                    proxy.script_u = proxy.script_alt = None
-                    o["calls"] = [c[0] for c in proxy.calls]
-                    us = [float(c[1]) for c in proxy.calls if c[0] == "random"]
-                    alts = [_first_int(c[1]) for c in proxy.calls if c[0] in ("choice", "integers")]
-                    o["u"] = us[0] if us else None
-                    o["alt"] = alts[0] if alts else None
+                    if proxy is not None:
+                        proxy.script_u = proxy.script_alt = None
+                        o["calls"] = [c[0] for c in proxy.calls]
+                        us = [float(c[1]) for c in proxy.calls if c[0] == "random"]
+                        alts = [_first_int(c[1]) for c in proxy.calls if c[0] in ("choice", "integers")]
+                        o["u"] = us[0] if us else None
+                        o["alt"] = alts[0] if alts else None
                 o["act"] = int(act)
                 o["act_type"] = type(act).__name__
                 last_act = int(act)
             elif k == "learn":
                 a = last_act if op.get("a") is None else op["a"]
                 r = last_rew if op.get("r") is None else op["r"]
-                o["a"], o["r"] = a, r
-                o["Qb"], o["Cb"] = list(agent.Q), list(agent.actions_count)
+                o["a"], o["r"] = a, _py(r)
+                o["Qb"], o["Cb"] = _snap(agent.Q), _snap(agent.actions_count)
                 try:
-                    agent.learn(0, a, r, 0)
+                    agent.learn(0, _rep(a, rep.get("action")), r if op.get("r") is None else _rep(r, rep.get("reward")), 0)
                 finally:
-                    o["Q"], o["C"] = list(agent.Q), list(agent.actions_count)
+                    o["Q"], o["C"] = _snap(agent.Q), _snap(agent.actions_count)
+                    o["Qtypes"] = sorted({type(x).__name__ for x in agent.Q})
             elif k == "reset":
                 agent.reset()
-                o["Q"], o["C"] = list(agent.Q), list(agent.actions_count)
+                o["Q"], o["C"] = _snap(agent.Q), _snap(agent.actions_count)
             elif k == "full":
-                o["Q"], o["C"] = list(agent.Q), list(agent.actions_count)
+                o["Q"], o["C"] = _snap(agent.Q), _snap(agent.actions_count)
             elif k == "setref":
-                env._curr_best_loss = op["x"]  # noqa: SLF001  (what RLScheduler.update does, rl_scheduler.py:152)
+                env._curr_best_loss = _rep(op["x"], rep.get("loss"))  # noqa: SLF001  (what RLScheduler.update does, rl_scheduler.py:152)
             elif k == "reward":
-                o["ref_before"] = env._curr_best_loss  # noqa: SLF001
+                o["ref_before"] = _py(env._curr_best_loss)  # noqa: SLF001
                 try:
-                    rew = env.get_reward(None, op["loss"])
-                    o["rew"] = rew
+                    rew = env.get_reward(None, _rep(op["loss"], rep.get("loss")))
+                    o["rew"] = _py(rew)
                     o["rew_type"] = type(rew).__name__
                     last_rew = rew
                 finally:
-                    o["ref"] = env._curr_best_loss  # noqa: SLF001
+                    o["ref"] = _py(env._curr_best_loss)  # noqa: SLF001
+            # ------------------------------------------------------------------ round 4
+            elif k == "setalpha":
+                agent.alpha = _rep(op["x"], rep.get("alpha"))
+            elif k == "seteps":
+                agent.eps = _rep(op["x"], rep.get("eps"))
+            elif k == "setn":
+                agent.n_actions = _rep(op["n"], rep.get("n"))
+            elif k == "reseed":
+                agent.random_state = op["seed"]
+                o["random_state"] = agent.random_state
+                if proxied:
+                    o["proxied"] = install_proxy()
+            elif k == "setstate":
+                o["Qb"], o["Cb"] = _snap(agent.Q), _snap(agent.actions_count)
+                how = op.get("how", "assign")
+                if op.get("Q") is not None:
+                    if how == "slice":
+                        agent.Q[:] = list(op["Q"])
+                    elif how == "array":
+                        agent.Q = np.array(op["Q"], dtype=np.float64)
+                    else:
+                        agent.Q = list(op["Q"])
+                if op.get("Qidx") is not None:
+                    for j, v in op["Qidx"]:
+                        agent.Q[j] = v
+                if op.get("C") is not None:
+                    if how == "slice":
+                        agent.actions_count[:] = list(op["C"])
+                    elif how == "array":
+                        agent.actions_count = np.array(op["C"], dtype=np.int64)
+                    else:
+                        agent.actions_count = list(op["C"])
+                o["Q"], o["C"] = _snap(agent.Q), _snap(agent.actions_count)
+            elif k == "envreset":
+                o["ref_before"] = _py(env._curr_best_loss)  # noqa: SLF001
+                try:
+                    ret = env.reset(seed=op.get("seed"))
+                    o["ret"] = [_py(ret[0]), ret[1]] if isinstance(ret, tuple) and len(ret) == 2 else repr(ret)
+                finally:
+                    o["ref"] = _py(env._curr_best_loss)  # noqa: SLF001
+            elif k == "step":
+                a = last_act if op.get("a") is None else op["a"]
+                o["a"] = a
+                o["ref_before"] = _py(env._curr_best_loss)  # noqa: SLF001
+                msg = None if op["loss"] is None else (np.array([0.25, 0.5]), _rep(op["loss"], rep.get("loss")))
+                env._in_queue.put(msg)  # noqa: SLF001
+                try:
+                    ret = env.step(_rep(a, rep.get("action")))
+                    o["ret_len"] = len(ret)
+                    o["obs"], o["rew"], o["term"], o["trunc"], o["info"] = _py(ret[0]), _py(ret[1]), ret[2], ret[3], ret[4]
+                    o["rew_type"] = type(ret[1]).__name__
+                    if op["loss"] is not None:
+                        last_rew = ret[1]
+                finally:
+                    o["ref"] = _py(env._curr_best_loss)  # noqa: SLF001
+                    o["outq"] = _drain(env._out_queue)  # noqa: SLF001
+                    o["inq_left"] = len(_drain(env._in_queue))  # noqa: SLF001
             else:
                 raise AssertionError(k)
         except Exception as e:  # noqa: BLE001
             o["exc"] = type(e).__name__
             o["msg"] = str(e)[:120]
         obs.append(o)
-    return {"first": first, "obs": obs, "n_actions_attr": agent.n_actions}
+    return {"first": first, "obs": obs, "n_actions_attr": _py(agent.n_actions)}
 
 
 # ------------------------------------------------------------------------------------------ generators
@@ -258,6 +391,274 @@ def gen_case(rng, max_steps):
             "scripted": scripted, "ops": ops}
 
 
+# ------------------------------------------------------------------------------------------ generators (round 4)
+def _f32(x):
+    import struct
+
+    return struct.unpack("f", struct.pack("f", x))[0]
+
+
+def _frac_bits(x):
+    """Number of binary digits after the point of the float x (what every learn with step x adds to the exact estimate)."""
+    d = Fraction(x).denominator
+    return d.bit_length() - 1
+
+
+def _near(rng, x):
+    """A value equal or very close to x (same float32, within np.isclose's default tolerance, one ulp, ...)."""
+    c = rng.below(8)
+    if c == 0:
+        return x
+    if c == 1:
+        return math.nextafter(x, math.inf)
+    if c == 2:
+        return math.nextafter(x, -math.inf)
+    if c == 3:
+        return x * (1 + 2.0**-30)
+    if c == 4:
+        return x * (1 - 2.0**-27)
+    if c == 5:
+        return x * (1 + 2.0**-20)
+    if c == 6:
+        return x + 2.0**-40 * (abs(x) if x else 1.0)
+    return x * (1 - 2.0**-45)
+
+
+def _x_reward(rng, pool, base):
+    if pool == "far":                       # far from the origin relative to the spread
+        return base + rng.choice([0.0, 1.0, -1.0, rng.uniform(-1.0, 1.0), 0.5])
+    if pool == "tiny":
+        return rng.choice([rng.random() * 1e-200, 3e-310, 5e-324, 0.0, -0.0, rng.random() * 1e-200])
+    if pool == "huge":
+        return rng.uniform(-1.0, 1.0) * 1e150
+    if pool == "near":
+        return _near(rng, base)
+    if pool == "zeros":
+        return rng.choice([0.0, -0.0, 0.0, 1.0, 5e-324])
+    return _pick_reward(rng, pool)
+
+
+def _state_list(rng, m, pool, base):
+    vals = [_x_reward(rng, pool, base) for _ in range(m)]
+    if m >= 2 and pool in ("near", "far"):
+        # the unique maximum sits after an entry that is merely close to it
+        top = max(vals)
+        j = rng.randint(1, m - 1)
+        vals[j] = math.nextafter(top, math.inf) if rng.below(2) else top * (1 + 2.0**-28) if top > 0 else top + 2.0**-28
+        vals[rng.below(j)] = top
+    return vals
+
+
+def gen_case_x(rng, max_steps):
+    """Round 4: representations, scales, reassigned attributes, reused objects, env.step / env.reset, sessions."""
+    n = rng.randint(1, 8)
+    c = rng.below(100)
+    if c < 2:
+        n = 0
+    elif c < 8:
+        n = rng.choice([11, 12, 16, 33, 64])
+    alpha_pool = rng.choice([[-1, 0.5, 1.0, -1.0], [-1, 0.5, 1.0, 0.25, 0.75, 0, 0.0, 1], [-1.0, 0.1, 0.9, rng.random(), 2.0**-20]])
+    alpha = rng.choice(alpha_pool)
+    eps_pool = rng.choice([[0, 0.0, 0.1, 0.5, 1.0, 1], [0.0, 0.25, rng.random(), 1.0 - 2.0**-53, 1e-300, 5e-324, 1.0]])
+    eps = rng.choice(eps_pool)
+    pool = rng.choice(["ties", "unit", "signed", "bern", "far", "far", "tiny", "huge", "near", "near", "zeros"])
+    base = rng.choice([1e8, 1e5, -1e6, 3.0e7 + 0.5]) if pool == "far" else rng.choice([0.3, 1.0, rng.uniform(0.1, 2.0), -0.7, 1e8, 1e-9])
+    init = rng.choice([0.0, 0.0, 0.5, -0.0, 1, 0, 1e8, 1e-8, 3e-310, rng.uniform(-2.0, 2.0), base])
+    if pool == "huge":
+        init = rng.choice([0.0, 1e150, -1e150])
+    seed = rng.choice(SPECIAL_SEEDS) if rng.below(4) == 0 else rng.below(2**32)
+    rep = {}
+    if rng.below(2) == 0:
+        rep = {"n": rng.choice(["py", "np.int64"]), "alpha": rng.choice(["py", "np.float64", "int", "np.int64"]),
+               "eps": rng.choice(["py", "np.float64", "int"]), "init": rng.choice(["py", "np.float64", "int", "np.float32"]),
+               "action": rng.choice(["py", "np.int64"]), "reward": rng.choice(["py", "np.float64", "int", "np.int64", "np.float32"]),
+               "loss": rng.choice(["py", "np.float64", "int"])}
+        if rep["init"] == "np.float32" and rep["reward"] == "np.float32":
+            rep["reward"] = "np.float64"      # float32 - float32 is float32 arithmetic: rounding to 24 bits is the caller's choice then
+        if rep["init"] == "np.float32" and abs(init) < 1e30:
+            init = _f32(init)
+    f32_rewards = rep.get("reward") == "np.float32" and pool not in ("tiny", "huge")
+    mode = rng.choice(["loop", "loop", "free", "free", "direct", "state"])
+    style = rng.choice(["pos", "pos", "pos", "signed"])
+    scale = rng.choice([1.0, 1.0, 1.0, 1e-9, 1e-200, 1e-310, 1e100, 1e250])
+    if style == "signed":
+        scale = 1.0                   # (prev - new) / prev overflows for a negative loss under a tiny reference
+    scripted = rng.below(3) == 0
+    steps = rng.randint(1, max_steps)
+    if max(_frac_bits(a) for a in alpha_pool if a != -1) > 8:
+        steps = min(steps, 48)        # every learn adds that many bits to the exact estimate (see gen_case)
+    if n > 8:
+        steps = min(steps, 60)
+    ops = []
+    cur = {"eps": eps, "n": n}
+
+    def rew():
+        r = _x_reward(rng, pool, base)
+        return _f32(r) if f32_rewards else r
+
+    def policy_op():
+        op = {"k": "policy"}
+        if scripted and rng.below(2) == 0:
+            e = float(cur["eps"])
+            cand = [e, math.nextafter(e, -1.0), math.nextafter(e, 2.0), 0.0, 1.0 - 2.0**-53, 0.5]
+            cand = [u for u in cand if 0.0 <= u < 1.0]
+            op["u"] = rng.choice(cand)
+            if cur["n"] > 0 and rng.below(2) == 0:
+                op["alt"] = rng.below(cur["n"])
+        return op
+
+    def reassign():
+        """One reassignment of a public attribute / reuse of the objects, as a caller may do between two calls."""
+        c = rng.below(100)
+        m = cur["n"]
+        if c < 22:
+            ops.append({"k": "setalpha", "x": rng.choice(alpha_pool)})
+        elif c < 40:
+            cur["eps"] = rng.choice(eps_pool)
+            ops.append({"k": "seteps", "x": cur["eps"]})
+        elif c < 52:
+            ops.append({"k": "reseed", "seed": rng.choice(SPECIAL_SEEDS) if rng.below(3) == 0 else rng.below(2**32)})
+        elif c < 80 and m > 0:
+            op = {"k": "setstate", "how": rng.choice(["assign", "assign", "slice", "array"])}
+            d = rng.below(4)
+            if d in (0, 1):
+                op["Q"] = _state_list(rng, m, pool, base)
+            elif d == 2:
+                op["Qidx"] = [[rng.below(m), rew()]]
+                op["how"] = "assign"
+            if d in (1, 3):
+                op["C"] = [rng.choice([0, 1, 2, 5, 99, 127, 255, 256, 1000, 4095, rng.below(50)]) for _ in range(m)]   # (unary nat literals in Coq)
+            ops.append(op)
+        elif c < 86 and n <= 8:
+            cur["n"] = rng.randint(1, 8)
+            ops.append({"k": "setn", "n": cur["n"]})
+            ops.append({"k": "reset"})
+        elif c < 96:
+            ops.append({"k": "envreset", "seed": rng.choice([None, 0, rng.below(2**32)])})
+        else:
+            ops.append({"k": "reset"})
+
+    if rng.below(8) == 0:
+        ops.append({"k": "reseed", "seed": rng.choice(SPECIAL_SEEDS) if rng.below(2) == 0 else rng.below(2**32)})
+    ref_guess = None
+    if mode == "loop":
+        # the scheduler's loop, the rewards obtained through env.step as RLScheduler._train does; several sessions
+        via_step = rng.below(4) != 0
+        ref_guess = rng.choice([1.0, 2.0, 0.5, rng.uniform(0.1, 10.0), rng.uniform(0.1, 10.0)]) * scale
+        if style == "signed" and rng.below(3) == 0:
+            ref_guess = rng.choice([0.0, -1.0, rng.uniform(-2, 2)])
+        ops.append({"k": "setref", "x": ref_guess})
+        for _ in range(steps):
+            ops.append(policy_op())
+            c = rng.below(100)
+            if via_step and c < 6:
+                ops.append({"k": "step", "a": None, "loss": None})          # end of a session: nothing is learnt
+                if rng.below(2) == 0:
+                    reassign()
+                continue
+            if via_step and c < 9 and cur["n"] == n:
+                ops.append({"k": "step", "a": rng.choice([max(n, 1), max(n, 1) + 3, -1]), "loss": _next_loss_x(rng, ref_guess, style, scale)})
+                continue
+            loss = _next_loss_x(rng, ref_guess, style, scale)
+            ops.append({"k": "step", "a": None, "loss": loss} if via_step and cur["n"] == n else {"k": "reward", "loss": loss})
+            if ref_guess is not None and loss < ref_guess and not (ref_guess == 0.0):
+                ref_guess = loss
+            ops.append({"k": "learn", "a": None, "r": None})
+            if rng.below(12) == 0:
+                reassign()
+            if ref_guess == 0.0 and rng.below(3) == 0:
+                ref_guess = rng.uniform(0.1, 10.0) * scale
+                ops.append({"k": "setref", "x": ref_guess})
+    elif mode == "direct":
+        for _ in range(steps):
+            ops.append(policy_op())
+            ops.append({"k": "learn", "a": None, "r": rew()})
+            if rng.below(10) == 0:
+                reassign()
+    elif mode == "state":
+        # estimates assigned from outside (equal, nearly equal, far from the origin), then the greedy choice and a learn
+        for _ in range(max(1, steps // 2)):
+            if cur["n"] > 0:
+                ops.append({"k": "setstate", "how": rng.choice(["assign", "slice", "array"]), "Q": _state_list(rng, cur["n"], pool, base)})
+            ops.append(policy_op())
+            if rng.below(2) == 0:
+                ops.append({"k": "learn", "a": None if rng.below(2) else rng.below(max(cur["n"], 1)), "r": rew()})
+                ops.append(policy_op())
+            if rng.below(6) == 0:
+                reassign()
+    else:
+        for _ in range(steps):
+            c = rng.below(100)
+            if c < 25:
+                ops.append(policy_op())
+            elif c < 55:
+                a = rng.below(max(cur["n"], 1))
+                if rng.below(25) == 0:
+                    a = cur["n"] + rng.below(3)                  # out of range: IndexError
+                ops.append({"k": "learn", "a": a, "r": rew()})
+            elif c < 60:
+                ops.append({"k": "learn", "a": None, "r": None})
+            elif c < 75:
+                loss = _next_loss_x(rng, ref_guess, style, scale)
+                ops.append({"k": rng.choice(["reward", "step"]), "loss": loss} if cur["n"] == n else {"k": "reward", "loss": loss})
+                if ops[-1]["k"] == "step":
+                    ops[-1]["a"] = rng.below(max(n, 1))
+                if ref_guess is not None and loss < ref_guess and not (ref_guess == 0.0):
+                    ref_guess = loss
+            elif c < 80:
+                ref_guess = rng.choice([None, 0.0, -0.0, 1.0 * scale, rng.uniform(0.1, 5.0) * scale, rng.uniform(-1.0, 5.0)])
+                ops.append({"k": "setref", "x": ref_guess})
+            elif c < 83:
+                ops.append({"k": "step", "a": rng.below(max(n, 1)), "loss": None})
+            elif c < 97:
+                reassign()
+            else:
+                ops.append({"k": "full"})
+    if rep.get("loss") == "np.float64":
+        # numpy scalars do not raise at a zero reference with a negative loss (they give -inf and a warning): the rule is
+        # undefined there, and the Python-float sequences keep exercising that corner; numpy losses stay non-negative
+        for op in ops:
+            if op["k"] in ("reward", "step") and op["loss"] is not None and op["loss"] < 0:
+                op["loss"] = -op["loss"]
+            if op["k"] == "setref" and op["x"] is not None and op["x"] < 0:
+                op["x"] = -op["x"]
+    return {"n": n, "alpha": alpha, "eps": eps, "init": init, "seed": seed, "mode": "x-" + mode, "pool": pool,
+            "scripted": scripted, "rep": rep, "scale": scale, "ops": ops}
+
+
+def _next_loss_x(rng, ref_guess, style, scale):
+    if ref_guess is None:
+        return rng.uniform(0.5, 10.0) * scale
+    if scale == 1.0 or style == "signed":
+        return _next_loss(rng, ref_guess, style)
+    c = rng.below(100)
+    if c < 8:
+        return ref_guess
+    if c < 11:
+        return rng.choice([0.0, -0.0, 5e-324])
+    if c < 55:
+        return ref_guess * rng.choice([0.5, 0.75, 0.9, rng.uniform(0.05, 0.999)])
+    if c < 62:
+        return math.nextafter(ref_guess, -math.inf)
+    if c < 67:
+        return math.nextafter(ref_guess, math.inf)
+    return ref_guess * rng.uniform(1.0, 3.0)
+
+
+def gen_case_long(rng, lo, hi):
+    """Histories longer than any small-integer threshold: hundreds of visits of one or two actions."""
+    n = rng.choice([1, 1, 2])
+    alpha = rng.choice([-1, -1.0, 0.5, 1.0])
+    eps = rng.choice([0, 0.1])
+    pool = rng.choice(["ties", "bern"])
+    ops = []
+    for _ in range(rng.randint(lo, hi)):
+        ops.append({"k": "policy"})
+        ops.append({"k": "learn", "a": None, "r": _pick_reward(rng, pool)})
+    return {"n": n, "alpha": alpha, "eps": eps, "init": rng.choice([0.0, 0.5]), "seed": rng.below(2**32), "mode": "long", "pool": pool,
+            "scripted": False, "ops": ops}
+
+
 # ------------------------------------------------------------------------------------------ Coq literals
 def cq(x):
     """Exact rational of a float/int as `fl neg m e` = (-1)^neg * m * 2^e (Model/Bandit.v), m a primitive-int literal.
@@ -281,56 +682,99 @@ def _finite(x):
     return isinstance(x, (int, float)) and not isinstance(x, bool) and math.isfinite(x)
 
 
+def _full(o, qk="Q", ck="C"):
+    return f"XOp (OFull {clist([cq(x) for x in o[qk]])} {clist([cnat(c) for c in o[ck]])})"
+
+
 def emit(case, res):
     """Coq literal of the case with the implementation's observations; None if something is not a finite number."""
     ops = []
     n = case["n"]
+    nb = max(n, 1)
     learns = 0
     try:
         for op, o in zip(case["ops"], res["obs"]):
             k = op["k"]
             if k == "policy":
                 if o["exc"] is not None:
-                    ops.append(f"OPolicy {cq(o['u'] if o.get('u') is not None else 0)} None true 0%nat")
+                    ops.append(f"XOp (OPolicy {cq(o['u'] if o.get('u') is not None else 0)} None true 0%nat)")
                     continue
                 alt = "None" if o["alt"] is None else f"(Some {cnat(o['alt'])})"
                 if not _finite(o["u"]) or o["act"] < 0 or (o["alt"] is not None and o["alt"] < 0):
                     return None
-                ops.append(f"OPolicy {cq(o['u'])} {alt} false {cnat(o['act'])}")
+                ops.append(f"XOp (OPolicy {cq(o['u'])} {alt} false {cnat(o['act'])})")
             elif k == "learn":
                 a, r = o["a"], o["r"]
                 if a < 0 or not _finite(r):
                     return None
                 if o["exc"] is not None:
-                    ops.append(f"OLearn {cnat(a)} {cq(r)} true 0 0%nat")
-                    ops.append(f"OFull {clist([cq(x) for x in o['Q']])} {clist([cnat(c) for c in o['C']])}")
+                    ops.append(f"XOp (OLearn {cnat(a)} {cq(r)} true 0 0%nat)")
+                    ops.append(_full(o))
                     continue
                 if a >= len(o["Q"]) or not all(_finite(x) for x in o["Q"]):
                     return None
-                ops.append(f"OLearn {cnat(a)} {cq(r)} false {cq(o['Q'][a])} {cnat(o['C'][a])}")
+                ops.append(f"XOp (OLearn {cnat(a)} {cq(r)} false {cq(o['Q'][a])} {cnat(o['C'][a])})")
                 learns += 1
                 if learns % FULL_EVERY == 0:
-                    ops.append(f"OFull {clist([cq(x) for x in o['Q']])} {clist([cnat(c) for c in o['C']])}")
+                    ops.append(_full(o))
             elif k == "reset":
                 if o["exc"] is not None:
                     return None
-                ops.append("OReset")
-                ops.append(f"OFull {clist([cq(x) for x in o['Q']])} {clist([cnat(c) for c in o['C']])}")
+                ops.append("XOp OReset")
+                ops.append(_full(o))
             elif k == "full":
-                ops.append(f"OFull {clist([cq(x) for x in o['Q']])} {clist([cnat(c) for c in o['C']])}")
+                ops.append(_full(o))
             elif k == "setref":
-                ops.append("OSetRef " + ("None" if op["x"] is None else f"(Some {cq(op['x'])})"))
+                ops.append("XOp (OSetRef " + ("None" if op["x"] is None else f"(Some {cq(op['x'])})") + ")")
             elif k == "reward":
                 ref = o["ref"]
                 if ref is not None and not _finite(ref):
                     return None
                 oref = "None" if ref is None else f"(Some {cq(ref)})"
                 if o["exc"] is not None:
-                    ops.append(f"OReward {cq(op['loss'])} (Some {EXN.get(o['exc'], 'OtherError')}) 0 {oref}")
+                    ops.append(f"XOp (OReward {cq(op['loss'])} (Some {EXN.get(o['exc'], 'OtherError')}) 0 {oref})")
                 else:
                     if not _finite(o["rew"]):
                         return None
-                    ops.append(f"OReward {cq(op['loss'])} None {cq(o['rew'])} {oref}")
+                    ops.append(f"XOp (OReward {cq(op['loss'])} None {cq(o['rew'])} {oref})")
+            # ------------------------------------------------------------------ round 4
+            elif k in ("setalpha", "seteps", "setn", "reseed", "envreset"):
+                if o["exc"] is not None:
+                    return None
+                if k == "setalpha":
+                    ops.append(f"XSetAlpha {cq(op['x'])}")
+                elif k == "seteps":
+                    ops.append(f"XSetEps {cq(op['x'])}")
+                elif k == "setn":
+                    ops.append(f"XSetN {cnat(op['n'])}")
+                elif k == "envreset":
+                    ops.append("XEnvReset")
+            elif k == "setstate":
+                if o["exc"] is not None or not all(_finite(x) for x in o["Q"]) or not all(_finite(x) for x in o["Qb"]):
+                    return None
+                if any(c < 0 for c in o["C"]):
+                    return None
+                ops.append(_full(o, "Qb", "Cb"))            # what the agent held just before (exact against the floats so far)
+                if op.get("Q") is not None or op.get("Qidx") is not None:
+                    ops.append(f"XSetQ {clist([cq(x) for x in o['Q']])}")
+                if op.get("C") is not None:
+                    ops.append(f"XSetC {clist([cnat(c) for c in o['C']])}")
+            elif k == "step":
+                ref = o["ref"]
+                if ref is not None and not _finite(ref):
+                    return None
+                a = o["a"]
+                valid = isinstance(a, int) and 0 <= a < nb
+                oref = "None" if ref is None else f"(Some {cq(ref)})"
+                msg = "None" if op["loss"] is None else f"(Some {cq(op['loss'])})"
+                if o["exc"] is not None:
+                    ops.append(f"XStep {'true' if valid else 'false'} {msg} (Some {EXN.get(o['exc'], 'OtherError')}) 0 false {oref}")
+                else:
+                    if not _finite(o["rew"]) or not isinstance(o["trunc"], bool):
+                        return None
+                    ops.append(f"XStep {'true' if valid else 'false'} {msg} None {cq(o['rew'])} {'true' if o['trunc'] else 'false'} {oref}")
+            else:
+                return None
         # final state: the complete lists as the agent holds them now
         last = None
         for o in reversed(res["obs"]):
@@ -341,21 +785,29 @@ def emit(case, res):
             last = res["first"]
         if not all(_finite(x) for x in last["Q"]):
             return None
-        ops.append(f"OFull {clist([cq(x) for x in last['Q']])} {clist([cnat(c) for c in last['C']])}")
+        ops.append(_full(last))
     except (KeyError, TypeError, ValueError, OverflowError):
         return None
     return f"({cnat(n)}, {cq(case['alpha'])}, {cq(case['eps'])}, {cq(case['init'])}, {clist(ops)})"
 
 
 # ------------------------------------------------------------------------------------------ direct oracle
+def _fmt(fr):
+    try:
+        return repr(float(fr))
+    except OverflowError:
+        return ("-" if fr < 0 else "") + f"about 2^{abs(fr.numerator).bit_length() - fr.denominator.bit_length()}"
+
+
 def _close(x, exact, scale):
-    return abs(Fraction(x) - exact) <= REL * max(abs(exact), scale) + ABS
+    return abs(Fraction(x) - exact) <= REL * max(abs(exact), scale) + ABS_ORACLE
 
 
 def oracle(case, res, res2):
     """The property statement on the observations of the implementation, in exact arithmetic; no Coq model involved."""
     fails = []
-    n, alpha, eps = case["n"], case["alpha"], case["eps"]
+    n, alpha, eps = case["n"], case["alpha"], case["eps"]     # the values in force (reassigned by setn / setalpha / seteps)
+    nb = max(case["n"], 1)                                    # size of the environment's action space
     first = res["first"]
     if not first["proxied"]:
         return ["instrumentation: the generator proxy is not what agent.random_generator returns"]
@@ -365,15 +817,84 @@ def oracle(case, res, res2):
         fails.append("constructor: reference best loss is set before any loss was seen")
     Q, C = list(first["Q"]), list(first["C"])
     ref = None
-    init_now = Fraction(case["init"]) if _finite(case["init"]) else Fraction(0)
-    hist = {a: [] for a in range(n)}       # rewards learnt per action since the last reset
     run_min = None                         # expected running minimum since the last setref, None when undefined
     poisoned = False
+    # the current stretch (since the last reset / reassignment of alpha, Q or the counts): per action the estimate and
+    # count it started from and the rewards learnt since
+    st = {"q0": list(Q), "c0": list(C), "rs": [[] for _ in range(n)]}
+
+    def close_stretch():
+        """Closed forms over the whole (interleaved) stretch that ends here, from the state it started in."""
+        if fails or poisoned:
+            return
+        for a in range(min(len(Q), len(st["rs"]))):
+            rs = st["rs"][a]
+            if not rs or not _finite(Q[a]) or not _finite(st["q0"][a]):
+                continue
+            q0, c0 = Fraction(st["q0"][a]), st["c0"][a]
+            scale = max([abs(q0)] + [abs(x) for x in rs])
+            if alpha == -1:
+                exact = (c0 * q0 + sum(rs)) / (c0 + len(rs))
+                if not _close(Q[a], exact, scale):
+                    fails.append(f"sample average: Q[{a}] = {Q[a]!r} after {len(rs)} rewards from count {c0}, "
+                                 f"(c0*Q0 + sum)/(c0+k) is {_fmt(exact)}")
+            else:
+                al = Fraction(alpha)
+                exact = (1 - al) ** len(rs) * q0 + sum(al * (1 - al) ** (len(rs) - 1 - i) * x for i, x in enumerate(rs))
+                if not _close(Q[a], exact, scale):
+                    fails.append(f"constant alpha closed form: Q[{a}] = {Q[a]!r}, expected {_fmt(exact)}")
+            if C[a] != c0 + len(rs):
+                fails.append(f"count is visits: count of action {a} is {C[a]} after {len(rs)} learns from {c0}")
+
+    def open_stretch():
+        st["q0"], st["c0"], st["rs"] = list(Q), list(C), [[] for _ in range(len(Q))]
+
+    def reward_clauses(tag, o, loss, what):
+        """get_reward's contract on one observation (direct call or through step); returns False when it raised as it must."""
+        nonlocal ref, run_min
+        if o["ref_before"] != ref:
+            fails.append(tag + "state changed between calls: reference")
+        if ref is None:
+            if o["exc"] != "ValueError" or o["ref"] is not None:
+                fails.append(tag + f"reference unset: expected ValueError, got {o['exc']} / reward {o.get('rew')!r}")
+            return False
+        if loss < ref:
+            if ref == 0:
+                # (prev - new) / prev is undefined: the code must not invent a number nor move the reference
+                if o["exc"] != "ZeroDivisionError" or o["ref"] != ref:
+                    fails.append(tag + f"reward rule: reference 0, loss {loss!r}: got {o['exc']} / {o.get('rew')!r}")
+                run_min = None
+                return False
+            if o["exc"] is not None:
+                fails.append(tag + f"{what} raised: {o['exc']} with reference {ref!r}, loss {loss!r}")
+                return False
+            exact = (Fraction(ref) - Fraction(loss)) / Fraction(ref)
+            if not _finite(o["rew"]) or abs(Fraction(o["rew"]) - exact) > REL * abs(exact):
+                fails.append(tag + f"reward rule: improvement {ref!r} -> {loss!r} rewarded {o['rew']!r}, "
+                                   f"expected {_fmt(exact)}")
+            if o["ref"] != loss:
+                fails.append(tag + f"reference: improvement {ref!r} -> {loss!r} left the reference at {o['ref']!r}")
+            ref = o["ref"]
+            if run_min is not None:
+                run_min = min(run_min, loss)
+        else:
+            if o["exc"] is not None:
+                fails.append(tag + f"{what} raised: {o['exc']} with reference {ref!r}, loss {loss!r}")
+                return False
+            if o["rew"] != 0.0:
+                fails.append(tag + f"reward rule: no improvement ({ref!r} then {loss!r}) rewarded {o['rew']!r}")
+            if o["ref"] != ref:
+                fails.append(tag + f"reference moved without improvement: {ref!r} -> {o['ref']!r} on loss {loss!r}")
+            ref = o["ref"]
+        if run_min is not None and ref != run_min:
+            fails.append(tag + f"reference is not the running minimum: {ref!r} vs {run_min!r}")
+        return True
+
     for i, (op, o) in enumerate(zip(case["ops"], res["obs"])):
         k = op["k"]
         tag = f"op {i} {k}: "
         if k == "policy":
-            if n == 0:
+            if len(Q) == 0:
                 if o["exc"] is None:
                     fails.append(tag + "valid index: an action was returned by an agent without actions")
                 continue
@@ -404,26 +925,29 @@ def oracle(case, res, res2):
             else:
                 if nalt != 0:
                     fails.append(tag + f"greedy branch: draw {u!r} >= eps {eps!r} but an alternative was drawn")
-                if any(Q[j] > Q[act] for j in range(n)):
+                if act >= len(Q):
+                    fails.append(tag + f"greedy choice: action {act} has no estimate ({len(Q)} estimates)")
+                elif any(Q[j] > Q[act] for j in range(len(Q))):
                     which = "eps=0" if eps == 0 else f"draw {u!r} >= eps {eps!r}"
                     fails.append(tag + f"greedy choice: ({which}) action {act} has estimate {Q[act]!r} < max {max(Q)!r}")
         elif k == "learn":
             a, r = o["a"], o["r"]
-            if not (0 <= a < n):
+            if not (0 <= a < len(Q)):
                 if o["exc"] != "IndexError" or o["Q"] != Q or o["C"] != C:
                     fails.append(tag + f"invalid action: learn({a}) expected IndexError and no change")
                 continue
             if o["exc"] is not None:
                 fails.append(tag + f"learn raised: {o['exc']} {o.get('msg')}")
                 Q, C = list(o["Q"]), list(o["C"])
+                open_stretch()
                 continue
             if o["Qb"] != Q or o["Cb"] != C:
                 fails.append(tag + "state changed between calls: estimates or counts")
             Qn, Cn = o["Q"], o["C"]
-            if len(Qn) != n or len(Cn) != n:
+            if len(Qn) != len(Q) or len(Cn) != len(C):
                 fails.append(tag + "state shape: list length changed")
                 break
-            for j in range(n):
+            for j in range(len(Q)):
                 if j != a and (Cn[j] != C[j]):
                     fails.append(tag + f"untouched: count of action {j} changed")
                 if j != a and not (Qn[j] == Q[j] and math.copysign(1, Qn[j]) == math.copysign(1, Q[j])):
@@ -440,16 +964,16 @@ def oracle(case, res, res2):
                 exact = q + step * (rr - q)
                 if not _close(Qn[a], exact, max(abs(q), abs(rr))):
                     fails.append(tag + f"update rule: Q[{a}] {Q[a]!r} -> {Qn[a]!r} with reward {r!r}, count {C[a] + 1}, "
-                                       f"alpha {alpha!r}; expected {float(exact)!r}")
-            if _finite(r):
-                hist[a].append(Fraction(r))
+                                       f"alpha {alpha!r}; expected {_fmt(exact)}")
+            if _finite(r) and a < len(st["rs"]):
+                st["rs"][a].append(Fraction(r))
             Q, C = list(Qn), list(Cn)
         elif k == "reset":
+            close_stretch()
             if o["exc"] is not None or o["Q"] != [0.0] * n or o["C"] != [0] * n:
                 fails.append(tag + "reset: did not zero the estimates and counts")
             Q, C = list(o["Q"]), list(o["C"])
-            hist = {a: [] for a in range(n)}
-            init_now = Fraction(0)
+            open_stretch()
         elif k == "full":
             if o["Q"] != Q or o["C"] != C:
                 fails.append(tag + "state changed between calls: estimates or counts")
@@ -457,63 +981,77 @@ def oracle(case, res, res2):
             ref = op["x"]
             run_min = ref
         elif k == "reward":
-            loss = op["loss"]
+            reward_clauses(tag, o, op["loss"], "reward")
+        # ---------------------------------------------------------------------- round 4
+        elif k == "setalpha":
+            close_stretch()
+            alpha = op["x"]
+            open_stretch()
+        elif k == "seteps":
+            eps = op["x"]
+        elif k == "setn":
+            n = op["n"]                    # the generator always resets the agent next
+        elif k == "reseed":
+            if o["exc"] is not None or o.get("random_state") != op["seed"]:
+                fails.append(tag + f"random_state: assigning {op['seed']} raised {o['exc']} / reads back {o.get('random_state')!r}")
+            if o.get("proxied") is False:
+                return ["instrumentation: the generator proxy is not what agent.random_generator returns after a reseed"]
+        elif k == "setstate":
+            if o["exc"] is not None:
+                fails.append(tag + f"assigning the public estimates / counts raised {o['exc']}")
+                continue
+            if o["Qb"] != Q or o["Cb"] != C:
+                fails.append(tag + "state changed between calls: estimates or counts")
+            close_stretch()
+            Qe, Ce = list(Q), list(C)
+            if op.get("Q") is not None:
+                Qe = list(op["Q"])
+            for j, v in op.get("Qidx") or []:
+                Qe[j] = v
+            if op.get("C") is not None:
+                Ce = list(op["C"])
+            if o["Q"] != Qe or o["C"] != Ce:
+                fails.append(tag + "assigned estimates / counts do not read back")
+            Q, C = list(o["Q"]), list(o["C"])
+            open_stretch()
+        elif k == "envreset":
             if o["ref_before"] != ref:
                 fails.append(tag + "state changed between calls: reference")
-            if ref is None:
-                if o["exc"] != "ValueError" or o["ref"] is not None:
-                    fails.append(tag + f"reference unset: expected ValueError, got {o['exc']} / reward {o.get('rew')!r}")
+            if o["exc"] is not None or o.get("ret") != [0, {}]:
+                fails.append(tag + f"env.reset: returned {o.get('ret')!r} / raised {o['exc']}")
+            if o["ref"] != ref:
+                fails.append(tag + f"reference moved without improvement: env.reset() turned {ref!r} into {o['ref']!r}")
+                ref = o["ref"]
+                run_min = None
+        elif k == "step":
+            a = o["a"]
+            if not (isinstance(a, int) and 0 <= a < nb):
+                if o["exc"] is None or o["ref"] != ref or o["outq"] or o["inq_left"] != 1:
+                    fails.append(tag + f"step outside the action space: step({a}) expected an exception and nothing consumed, got "
+                                       f"{o['exc']} / out-queue {o['outq']} / reference {o['ref']!r}")
                 continue
-            if loss < ref:
-                if ref == 0:
-                    # (prev - new) / prev is undefined: the code must not invent a number nor move the reference
-                    if o["exc"] != "ZeroDivisionError" or o["ref"] != ref:
-                        fails.append(tag + f"reward rule: reference 0, loss {loss!r}: got {o['exc']} / {o.get('rew')!r}")
-                    run_min = None
-                    continue
+            if o["outq"] != [a]:
+                fails.append(tag + f"step: the chosen action {a} was put on the queue as {o['outq']}")
+            if o["inq_left"] != 0:
+                fails.append(tag + "step: the scheduler's message was not consumed")
+            if op["loss"] is None:
+                if o["ref_before"] != ref:
+                    fails.append(tag + "state changed between calls: reference")
                 if o["exc"] is not None:
-                    fails.append(tag + f"reward raised: {o['exc']} with reference {ref!r}, loss {loss!r}")
-                    continue
-                exact = (Fraction(ref) - Fraction(loss)) / Fraction(ref)
-                if not _finite(o["rew"]) or abs(Fraction(o["rew"]) - exact) > REL * abs(exact):
-                    fails.append(tag + f"reward rule: improvement {ref!r} -> {loss!r} rewarded {o['rew']!r}, "
-                                       f"expected {float(exact)!r}")
-                if o["ref"] != loss:
-                    fails.append(tag + f"reference: improvement {ref!r} -> {loss!r} left the reference at {o['ref']!r}")
-                ref = o["ref"]
-                if run_min is not None:
-                    run_min = min(run_min, loss)
-            else:
-                if o["exc"] is not None:
-                    fails.append(tag + f"reward raised: {o['exc']} with reference {ref!r}, loss {loss!r}")
-                    continue
-                if o["rew"] != 0.0:
-                    fails.append(tag + f"reward rule: no improvement ({ref!r} then {loss!r}) rewarded {o['rew']!r}")
+                    fails.append(tag + f"step raised on the end-of-session marker: {o['exc']}")
+                elif not (o["trunc"] is True and o["term"] is False and o["rew"] == 0.0 and o["obs"] == 0):
+                    fails.append(tag + f"step: end-of-session marker answered ({o['obs']!r}, {o['rew']!r}, {o['term']!r}, {o['trunc']!r})")
                 if o["ref"] != ref:
-                    fails.append(tag + f"reference moved without improvement: {ref!r} -> {o['ref']!r} on loss {loss!r}")
-                ref = o["ref"]
-            if run_min is not None and ref != run_min:
-                fails.append(tag + f"reference is not the running minimum: {ref!r} vs {run_min!r}")
+                    fails.append(tag + f"reference moved without improvement: the end-of-session marker turned {ref!r} into {o['ref']!r}")
+                    ref = o["ref"]
+                    run_min = None
+                continue
+            if reward_clauses(tag, o, op["loss"], "step") and o["exc"] is None:
+                if not (o["trunc"] is False and o["term"] is False and o["obs"] == 0 and o["ret_len"] == 5):
+                    fails.append(tag + f"step: a loss message answered ({o['obs']!r}, ., {o['term']!r}, {o['trunc']!r})")
         if len(fails) > 8:
             break
-    # closed forms over the whole (interleaved) sequence since the last reset
-    if not fails and n > 0 and not poisoned:
-        for a in range(n):
-            rs = hist[a]
-            if not rs or not _finite(Q[a]):
-                continue
-            scale = max([abs(init_now)] + [abs(x) for x in rs])
-            if alpha == -1:
-                exact = sum(rs) / len(rs)
-                if not _close(Q[a], exact, scale):
-                    fails.append(f"sample average: Q[{a}] = {Q[a]!r} after {len(rs)} rewards, mean is {float(exact)!r}")
-            else:
-                al = Fraction(alpha)
-                exact = (1 - al) ** len(rs) * init_now + sum(al * (1 - al) ** (len(rs) - 1 - i) * x for i, x in enumerate(rs))
-                if not _close(Q[a], exact, scale):
-                    fails.append(f"constant alpha closed form: Q[{a}] = {Q[a]!r}, expected {float(exact)!r}")
-            if C[a] != len(rs):
-                fails.append(f"count is visits: count of action {a} is {C[a]} after {len(rs)} learns")
+    close_stretch()
     # determinism: the same seed and the same rewards a second time
     if res2 is not None:
         a1 = [(o.get("act"), o.get("exc")) for op, o in zip(case["ops"], res["obs"]) if op["k"] == "policy"]
@@ -532,12 +1070,22 @@ def oracle(case, res, res2):
 def stats_of(case, res, st):
     n = case["n"]
     st[f"n={n}"] += 1
-    st[f"alpha={float(case['alpha'])}"] += 1
-    st[f"eps={float(case['eps'])}"] += 1
+    al, ep = float(case["alpha"]), float(case["eps"])
+    st[f"alpha={al}" if al in (-1.0, 0.0, 0.1, 0.25, 0.5, 0.75, 0.9, 1.0, 2.0**-20) else "alpha=other in (0,1)"] += 1
+    st[f"eps={ep}" if ep in (0.0, 0.1, 0.25, 0.5, 1.0, 1e-300, 5e-324, 1.0 - 2.0**-53) else "eps=other in (0,1)"] += 1
     st[f"mode={case['mode']}"] += 1
     if case.get("scripted"):
         st["scripted_draws"] += 1
+    if case["mode"].startswith("x-"):
+        st[f"x_pool={case['pool']}"] += 1
+        st[f"x_loss_scale={case['scale']:g}"] += 1
+        for f, t in sorted((case.get("rep") or {}).items()):
+            if t != "py":
+                st[f"x_rep_{f}={t}"] += 1
+        if case["seed"] in SPECIAL_SEEDS:
+            st[f"x_seed={case['seed']}"] += 1
     nl = npol = 0
+    maxcount = 0
     for op, o in zip(case["ops"], res["obs"]):
         k = op["k"]
         if k == "policy" and o["exc"] is None:
@@ -569,8 +1117,29 @@ def stats_of(case, res, st):
                 st["reward_no_improvement"] += 1
         elif k == "reset":
             st["reset"] += 1
+        elif k == "step":
+            if op["loss"] is None:
+                st["x_step_end_marker"] += 1
+            elif o["exc"] is not None:
+                st[f"x_step_raise_{o['exc']}"] += 1
+            elif o["rew"] != 0.0:
+                st["x_step_improvement"] += 1
+            else:
+                st["x_step_no_improvement"] += 1
+        elif k in ("setalpha", "seteps", "setn", "reseed", "envreset"):
+            st["x_" + k] += 1
+        elif k == "setstate":
+            st["x_setstate_" + op.get("how", "assign")] += 1
+        if k == "policy" and o["exc"] is None and o.get("alt") is None:
+            q = sorted(o["Qat"])
+            if len(q) >= 2 and q[-1] != q[-2] and abs(q[-1] - q[-2]) <= 1e-6 * max(abs(q[-1]), abs(q[-2])):
+                st["x_policy_greedy_near_tie"] += 1
+        if k == "learn" and o["exc"] is None and o["C"]:
+            maxcount = max(maxcount, max(o["C"]))
     st["ops"] += len(case["ops"])
     st["learn_ok"] += nl
+    if maxcount >= 256:
+        st["x_count_reaches_256"] += 1
     return nl, npol
 
 
@@ -579,6 +1148,36 @@ def _clause(msg):
     if msg.startswith("op "):
         msg = msg.split(": ", 1)[1] if ": " in msg else msg
     return msg.split(":")[0][:50]
+
+
+def mismatches_with_retry(chk, lits, shard, name="C19"):
+    """chk.coq_mismatches; a shard whose coqc was killed from outside (rc=-9: the kernel's OOM killer on a shared machine, not a
+    verdict of Coq) is evaluated again, alone, up to three times with a pause.  A last failure is reported like any other
+    coqc error (fail closed)."""
+    import time
+
+    bad, errors = chk.coq_mismatches(name, IMPORTS, "check_xcase", CASE_T, lits, shard=shard, preamble="Open Scope Q_scope.")
+    bad, still = list(bad), []
+    for e in errors:
+        m = re.match(r"cases_" + name + r"_(\d+)\.v: rc=-9", e)
+        if not m:
+            still.append(e)
+            continue
+        k = int(m.group(1)) * shard
+        for attempt in (1, 2, 3):
+            time.sleep(15 * attempt)
+            b2, e2 = chk.coq_mismatches(f"{name}again{k}_{attempt}", IMPORTS, "check_xcase", CASE_T, lits[k:k + shard], shard=shard,
+                                        preamble="Open Scope Q_scope.")
+            chk.notes.append(f"shard {k // shard}: coqc killed by a signal, evaluated again (attempt {attempt})")
+            if not any("rc=-9" in x for x in e2):
+                break
+        bad += [k + j for j in b2]
+        still += e2
+    return sorted(bad), still
+
+
+def _has_script(case):
+    return any(op["k"] == "policy" and (op.get("u") is not None or op.get("alt") is not None) for op in case["ops"])
 
 
 def safe_oracle(case, res, res2):
@@ -600,10 +1199,18 @@ def run(chk, replay=None):
         if chk.tier == "quick":
             for _ in range(300):
                 cases.append(gen_case(chk.rng, 40))
+            for _ in range(420):
+                cases.append(gen_case_x(chk.rng, 40))
+            for _ in range(4):
+                cases.append(gen_case_long(chk.rng, 270, 700))
         else:
             # lengths up to 200, skewed to short ones (mean ~50 rounds) to bound the cost of exact arithmetic
             for _ in range(5000):
                 cases.append(gen_case(chk.rng, chk.rng.randint(1, 200)))
+            for _ in range(1500):
+                cases.append(gen_case_x(chk.rng, chk.rng.randint(1, 200)))
+            for _ in range(24):
+                cases.append(gen_case_long(chk.rng, 270, 1200))
     # implementation runs (twice: determinism), oracle and literals, case by case (observations are not kept)
     st = Counter()
     keys, nontrivial = set(), set()
@@ -611,7 +1218,11 @@ def run(chk, replay=None):
     samples = {}
     sample_ids = set(list(range(0, len(cases), max(1, len(cases) // 3)))[:4])
     for i, c in enumerate(cases):
-        r, r2 = run_impl(c), run_impl(c)
+        r = run_impl(c)
+        # the run the determinism clause compares with: nothing around the generator unless draws are scripted, and
+        # another constructor seed when the sequence starts by assigning random_state (the seed in force is the assigned one)
+        reseeded_first = bool(c["ops"]) and c["ops"][0]["k"] == "reseed"
+        r2 = run_impl(c, proxied=_has_script(c), ctor_seed=(c["seed"] + 1) % 2**32 if reseeded_first else None)
         lit = emit(c, r)
         if lit is None:
             unrepresentable.add(i)
@@ -620,7 +1231,7 @@ def run(chk, replay=None):
             lits.append(lit)
         fails = safe_oracle(c, r, r2)
         nl, npol = stats_of(c, r, st)
-        key = json.dumps([c["n"], c["alpha"], c["eps"], c["init"], c["seed"], c["ops"]])
+        key = json.dumps([c["n"], c["alpha"], c["eps"], c["init"], c["seed"], c.get("rep"), c["ops"]])
         keys.add(hash(key))
         if nl >= 2 and npol >= 1:
             nontrivial.add(hash(key))
@@ -630,8 +1241,15 @@ def run(chk, replay=None):
             oracle_failed.add(i)
             chk.violation({"kind": "oracle", "clause": _clause(fails[0])},
                           {"failed": "oracle:" + fails[0], "all": fails[:10], "case": c, "observed": r["obs"][:60]})
-    shard = 20 if chk.tier == "quick" else 12
-    bad_l, errors = chk.coq_mismatches("C19", IMPORTS, "check_case", CASE_T, lits, shard=shard, preamble="Open Scope Q_scope.")
+    shard = 16 if chk.tier == "quick" else 12
+    # the few very long sequences are evaluated one per file: a file holding several of them is the largest coqc process
+    # of the machine (600 MB) and the first victim of the kernel's OOM killer on a shared machine
+    pos_long = [j for j, i in enumerate(idx) if cases[i].get("mode") == "long"]
+    pos_main = [j for j, i in enumerate(idx) if cases[i].get("mode") != "long"]
+    bad_m, errors = mismatches_with_retry(chk, [lits[j] for j in pos_main], shard)
+    bad_g, errors_g = mismatches_with_retry(chk, [lits[j] for j in pos_long], 1, name="C19long") if pos_long else ([], [])
+    errors = errors + errors_g
+    bad_l = sorted([pos_main[j] for j in bad_m] + [pos_long[j] for j in bad_g])
     bad = {idx[j] for j in bad_l} | unrepresentable
     n_reported = 0
     for i in sorted(bad - oracle_failed):
@@ -640,7 +1258,7 @@ def run(chk, replay=None):
         detail = None
         if n_reported < 3 and i not in unrepresentable:
             n_reported += 1
-            vals, _ = chk.coq_eval(f"C19_bad{i}", IMPORTS, [f"first_bad_case ({lits[idx.index(i)]})"],
+            vals, _ = chk.coq_eval(f"C19_bad{i}", IMPORTS, [f"first_xbad_case ({lits[idx.index(i)]})"],
                                    preamble="Open Scope Q_scope.")
             detail = vals[0]
         chk.violation({"kind": "correspondence", "name": "check_case"},
@@ -659,13 +1277,21 @@ def run(chk, replay=None):
                 "rarely 0; alpha in {-1,0.1,0.5,1}; eps in {0,0.1,0.5,1}; several initial values; seeds); modes: scheduler-like "
                 "loop policy->get_reward->learn, direct rewards, free interleavings incl. invalid actions, reset, unset/zero "
                 "reference; a quarter of the sequences script some draws to u = eps, its neighbours, 0 and 1-2^-53; "
+                "round 4 (mode x-*): arguments as numpy scalars / ints / float32, n up to 64, alpha and eps anywhere in [0,1] "
+                "(eps down to 5e-324), seeds 0 / 2^32 / 2^63-1 / 2^64+5, rewards far from the origin / tiny / huge / nearly equal / "
+                "signed zeros, losses scaled 1e-310 .. 1e250, alpha / eps / random_state / Q / actions_count / n_actions "
+                "reassigned between calls (lists, slices, arrays; counts up to 4095), env.reset(), rewards through env.step incl. "
+                "end-of-session markers and invalid actions, several sessions; mode long: 270-700 visits of one or two actions; "
+                "the second (determinism) run has nothing around the generator and, when the sequence starts by assigning "
+                "random_state, another constructor seed; "
                 "non-trivial = at least 2 successful learns and 1 policy call; distinct = distinct (config, seed, calls)",
         "samples": [samples[i] for i in sorted(samples)],
         "traces_validated_against_impl": len(cases) - len(bad),
         "model_impl_disagreements": len(bad),
         "oracle_failures": len(oracle_failed),
         "distribution": dict(sorted(st.items())),
-        "tolerances": "estimates: |impl - exact| <= 1e-12*max(|exact|, largest |reward|/|initial value| so far) + 1e-15; "
+        "tolerances": "estimates: |impl - exact| <= 1e-12*max(|exact|, largest |reward|/|initial value| so far) + 1e-15 "
+                      "(the direct oracle: + 1e-320 instead of 1e-15, so that tiny scales are judged relatively); "
                       "reward: 1e-12 relative; counts, chosen action (decided on the implementation's own floats), "
                       "reference best: exact",
         "exhaustive": False,
